@@ -207,6 +207,7 @@ class PathView:
         return [v for k, v, _ in self.attrs if k == ('str', key)]
 
     def describe(self, maxfacts=30):
+        maxfacts = maxfacts or 30
         lines = ['path (%s exit, request %s), last %d guard facts:' % (self.kind, self.variant, min(maxfacts, len(self.facts)))]
         for f, site, stack in self.facts[-maxfacts:]:
             lines.append('%s  %s' % (short_site(site), abbreviate(PF(f))[:220]))
